@@ -62,7 +62,7 @@ func vhId(i int) string {
 // explored by choosing the same index again, not by aliasing).
 func vhIdD(i int) string {
 	id := vhId(i)
-	vassume(!IsVariable(id)) // variable-looking ids: see C08 (cascade) and C13
+	vassume(!IsVariable(id))          // variable-looking ids: see C08 (cascade) and C13
 	vassume(!vhasPrefix(id, "uuid#")) // the UUID stub's namespace
 	for j := 0; j < i; j++ {
 		vassume(id != vhId(j))
